@@ -49,7 +49,21 @@ def dist_case(draw):
             # moments as read from single-precision files
             "moment_dtype": draw(st.sampled_from(["float64", "float64", "float64", "float32"])),
             # memory layout of the moment arrays: C order, Fortran order (transposed model output) or a strided view
-            "memory_order": draw(st.sampled_from(["C", "C", "F", "strided"]))}
+            "memory_order": draw(st.sampled_from(["C", "C", "F", "strided"])),
+            # labelling of the uniform grid: reduced to [0,360) (wrapping inside the array when t0 > 0), monotone from
+            # -180, or monotone from 270 running past 360
+            "grid_labels": draw(st.sampled_from(["mod360", "mod360", "mod360", "from_minus_180", "from_270"]))}
+
+
+def direction_grid(c):
+    N = c["N"]
+    lab = c.get("grid_labels", "mod360")
+    d = c["t0"] + np.arange(N) * 360.0 / N
+    if lab == "from_minus_180":
+        return d - 180.0
+    if lab == "from_270":
+        return d + 270.0
+    return d % 360.0
 
 
 def check_distribution(D, N, what, match=None, norm_tol=1e-9):
@@ -67,7 +81,7 @@ def run_dist(c):
     est = _est()
     shape = tuple(c["shape"])
     N = c["N"]
-    d = (c["t0"] + np.arange(N) * 360.0 / N) % 360.0
+    d = direction_grid(c)
     mdt = c.get("moment_dtype", "float64")
     single = mdt == "float32"
     M = np.array([q["m"] for q in c["quads"]], dtype=mdt).astype(float)      # (n, 4): the values the arrays hold
@@ -112,6 +126,7 @@ def run_dist(c):
     classes = [f"variant_{method}_{sm}", f"shape_{len(shape)}d"] + sorted({"kind_" + q["kind"] for q in c["quads"]})
     if single:
         classes.append("float32_moments")
+    classes.append("grid_labels_" + c.get("grid_labels", "mod360") + ("_wrapping_inside_array" if c["t0"] > 0 and c.get("grid_labels", "mod360") == "mod360" else ""))
     if order != "C" and len(shape) >= 2:
         classes.append("moments_" + order + "_layout_2plus_leading_dims")
     nudged = sum(1 for q in c["quads"] if q.get("nudged_off_degenerate_boundary"))
